@@ -32,6 +32,13 @@ pub(super) fn run_write(invocation: ToolInvocation, config: &BuiltinToolConfig) 
     let append = args.append.unwrap_or(false);
     let atomic = args.atomic.unwrap_or(true);
 
+    if path.is_dir() {
+        // A directory target (e.g. "" or "." naming the workspace root) cannot be written; refuse
+        // before the atomic path creates its temporary file next to it, which for the root itself
+        // would be outside the workspace.
+        return ToolOutput::failure(vec!["write failed: target is a directory".to_string()]);
+    }
+
     if let Some(parent) = path.parent() {
         if let Err(err) = fs::create_dir_all(parent) {
             return ToolOutput::failure(vec![format!("write failed: {err}")]);
